@@ -365,13 +365,14 @@ class Run:
                     m.append({"orig": "", "sess": "UNKNOWN", "unit": "", "value": "", "descr": "", "data": np.array([])})
                 for i, c in enumerate(m):
                     if eff.size == 0:
-                        break             # nothing is assigned from an array without samples; only the duplicate numbering is refreshed
+                        break             # nothing is assigned from an array without samples
                     if names is not None:
                         c["orig"] = names[i] if i < len(names) else None     # None = don't care
                     c["data"] = eff[:, i].copy()
                     c["sess"] = useful(c["orig"]) if c["orig"] is not None else None     # assigning .mnemonic resets the session name
-                for u in {useful(c["orig"]) for c in m if c["orig"] is not None}:
-                    renumber(m, u, self.norm)
+                if eff.size:              # (an array without samples changes nothing at all - since fix "set_data keeps the names of curves that already go by them" not even stale numbers)
+                    for u in {useful(c["orig"]) for c in m if c["orig"] is not None}:
+                        renumber(m, u, self.norm)
                 if eff.size:
                     self.nrows = rows
                 if width == "df":
